@@ -4,7 +4,7 @@ import JunoModel.C08.Model
 Line-protocol driver for the C08 model (`lake build c08drv`). All numbers are hex without prefix.
 
   reset                                         -> ok
-  store <num> <hash> <parent> <root> <oldroot> <item>*  -> ok | err:succession
+  store <num> <hash> <parent> <root> <oldroot> <item>*  -> ok | err:rejected
         item: t=<hash>,<kind>,<0|1>   transaction (in block order)
               d=<addr>,<class>        deployed contract
               r=<addr>,<class>        replaced class
@@ -14,7 +14,8 @@ Line-protocol driver for the C08 model (`lake build c08drv`). All numbers are he
   revert                                        -> ok | err:empty
   l1 <n> | l1 none                              -> ok
   q <v8|v9|v10> <legacy|new> <method> <arg>*    -> ok ... | err:<code>
-        block id: n:<num> | h:<hash> | latest | l1 | pre
+        block id (wire form): t:<tag string> | n:<num> | h:<hash> | hn:<hash>:<num> | o | x
+        transaction index: hex, optionally negative (`-1`)
         stateUpdate takes an optional last argument f=<addr>,… (v10 contract_addresses; `f=` is
         the empty list)
 -/
@@ -51,14 +52,26 @@ def parseVer : String → Option Ver
   | "v10" => some .v10
   | _ => none
 
-def parseId (s : String) : Option BlockId :=
-  if s == "latest" then some .latest
-  else if s == "l1" then some .l1Accepted
-  else if s == "pre" then some .pre
+/-- Wire form of a block id: `t:<tag>` (any string), `n:<num>`, `h:<hash>`, `hn:<hash>:<num>`
+(object with both members), `o` (object with neither), `x` (any other JSON). -/
+def parseRawId (s : String) : Option RawId :=
+  if s == "o" then some (.obj none none)
+  else if s == "x" then some .other
   else match splitOn1 s ':' with
-    | ["n", x] => (hexToNat? x).map .number
-    | ["h", x] => (hexToNat? x).map .hash
+    | ["t", tag] => some (.tag tag)
+    | ["n", x] => (hexToNat? x).map (fun n => .obj none (some n))
+    | ["h", x] => (hexToNat? x).map (fun h => .obj (some h) none)
+    | ["hn", x, y] => do
+      let h ← hexToNat? x
+      let n ← hexToNat? y
+      pure (.obj (some h) (some n))
     | _ => none
+
+/-- A possibly negative hex integer (`-1`, `2a`). -/
+def parseInt (s : String) : Option Int :=
+  match s.toList with
+  | '-' :: rest => (hexToNat? (String.ofList rest)).map (fun n => - (Int.ofNat n))
+  | _ => (hexToNat? s).map Int.ofNat
 
 def finS : Fin → String
   | .l1 => "L1"
@@ -104,56 +117,67 @@ def render : Ans → String
     "ok " ++ natToHex t.hash ++ "/" ++ natToHex (t.kind / 16) ++ " " ++ boolS t.reverted ++ " " ++ finS f ++ " " ++ natToHex n ++ " " ++ natToHex bh
   | .status f r => "ok " ++ finS f ++ " " ++ boolS r
   | .update bh nr orr d => "ok " ++ natToHex bh ++ " " ++ natToHex nr ++ " " ++ natToHex orr ++ " " ++ diffS d
+  | .valueAt v n => "ok " ++ natToHex v ++ " @" ++ natToHex n
+  | .pendingBlock p => "ok pending " ++ natToHex p
+  | .pendingUpdate orr d => "ok pending-update " ++ natToHex orr ++ " " ++ diffS d
 
 def parseBackend : String → Option Backend
   | "legacy" => some .legacy
   | "new" => some .new
   | _ => none
 
-def query (be : Backend) (ver : Ver) (nd : Node) (method : String) (args : List String) : Option Ans :=
+def parseFilter (f : String) : Option (List Nat) :=
+  match splitOn1 f '=' with
+  | ["f", ""] => some []
+  | ["f", body] => parseNats body
+  | _ => none
+
+def parseRequest (method : String) (args : List String) : Option Request :=
   match method, args with
-  | "blockNumber", [] => some (blockNumber nd)
-  | "blockHashAndNumber", [] => some (blockHashAndNumber nd)
-  | "blockTxHashes", [id] => (parseId id).map (blockWithTxHashes ver nd)
-  | "blockTxs", [id] => (parseId id).map (blockWithTxs ver nd)
-  | "blockReceipts", [id] => (parseId id).map (blockWithReceipts ver nd)
-  | "txCount", [id] => (parseId id).map (blockTransactionCount ver nd)
-  | "txByHash", [h] => (hexToNat? h).map (transactionByHash nd)
+  | "blockNumber", [] => some .blockNumber
+  | "blockHashAndNumber", [] => some .blockHashAndNumber
+  | "blockTxHashes", [id] => (parseRawId id).map .blockWithTxHashes
+  | "blockTxs", [id] => (parseRawId id).map .blockWithTxs
+  | "blockReceipts", [id] => (parseRawId id).map .blockWithReceipts
+  | "txCount", [id] => (parseRawId id).map .blockTransactionCount
+  | "txByHash", [h] => (hexToNat? h).map .transactionByHash
   | "txByIdx", [id, i] => do
-    let id ← parseId id
-    let i ← hexToNat? i
-    pure (transactionByBlockIdAndIndex ver nd id i)
-  | "receipt", [h] => (hexToNat? h).map (transactionReceipt nd)
-  | "txStatus", [h] => (hexToNat? h).map (transactionStatus nd)
-  | "stateUpdate", [id] => (parseId id).map (stateUpdate ver nd)
+    let id ← parseRawId id
+    let i ← parseInt i
+    pure (.transactionByBlockIdAndIndex id i)
+  | "receipt", [h] => (hexToNat? h).map .transactionReceipt
+  | "txStatus", [h] => (hexToNat? h).map .transactionStatus
+  | "stateUpdate", [id] => (parseRawId id).map (fun id => .stateUpdate id [])
   | "stateUpdate", [id, f] => do
-    let id ← parseId id
-    let fl ← match splitOn1 f '=' with
-      | ["f", ""] => some []
-      | ["f", body] => parseNats body
-      | _ => none
-    pure (stateUpdate ver nd id fl)
+    let id ← parseRawId id
+    let fl ← parseFilter f
+    pure (.stateUpdate id fl)
   | "storage", [id, a, k] => do
-    let id ← parseId id
+    let id ← parseRawId id
     let a ← hexToNat? a
     let k ← hexToNat? k
-    pure (storageAt be ver nd id a k)
+    pure (.storageAt a k id)
+  | "storageLU", [id, a, k] => do
+    let id ← parseRawId id
+    let a ← hexToNat? a
+    let k ← hexToNat? k
+    pure (.storageAtWithLastUpdate a k id)
   | "nonce", [id, a] => do
-    let id ← parseId id
+    let id ← parseRawId id
     let a ← hexToNat? a
-    pure (nonce be ver nd id a)
+    pure (.nonce id a)
   | "classHashAt", [id, a] => do
-    let id ← parseId id
+    let id ← parseRawId id
     let a ← hexToNat? a
-    pure (classHashAt be ver nd id a)
+    pure (.classHashAt id a)
   | "class", [id, c] => do
-    let id ← parseId id
+    let id ← parseRawId id
     let c ← hexToNat? c
-    pure (classByHash be ver nd id c)
+    pure (.classByHash id c)
   | "classAt", [id, a] => do
-    let id ← parseId id
+    let id ← parseRawId id
     let a ← hexToNat? a
-    pure (classAt be ver nd id a)
+    pure (.classAt id a)
   | _, _ => none
 
 def step (nd : Node) (line : String) : Node × String :=
@@ -165,7 +189,7 @@ def step (nd : Node) (line : String) : Node × String :=
     | some b =>
       match store nd b with
       | some nd' => (nd', "ok")
-      | none => (nd, "err:succession")
+      | none => (nd, "err:rejected")
   | ["revert"] =>
     match revert nd with
     | some nd' => (nd', "ok")
@@ -180,12 +204,9 @@ def step (nd : Node) (line : String) : Node × String :=
     | none, _ => (nd, "bad-op")
     | _, none => (nd, "bad-op")
     | some v, some be =>
-      -- v8 `pending` is modelled for the state methods only
-      if v == .v8 && args.head? == some "pre" &&
-          !(["storage", "nonce", "classHashAt", "class", "classAt"].contains method) then (nd, "bad-op")
-      else match query be v nd method args with
-        | some a => (nd, render a)
-        | none => (nd, "bad-op")
+      match parseRequest method args with
+      | some r => (nd, render (serve be v nd r))
+      | none => (nd, "bad-op")
   | _ => (nd, "bad-op")
 
 def main : IO Unit := loop step ({} : Node)
